@@ -5,242 +5,10 @@
 (* file together with the expected verified dimensions and the expected     *)
 (* result of every request of the menu.  The invariants are the theorems of *)
 (* Dataset.tla, so TLC checks them on every dataset it hands to the harness.*)
-EXTENDS Dataset, TLC, Json, SequencesExt
+EXTENDS DatasetGen
 
-CONSTANT Family            \* which universe to enumerate (see Universe below)
 VARIABLES gen, phase, ctx
 vars == <<gen, phase, ctx>>
-
----------------------------------------------------------------------------
-(* pools: the coordinates files may contain *)
-\* 1: 2012-01-01 00Z (Sun)  2: 2012-01-01 06Z  3: 2012-01-02 00Z (Mon)  4: 2012-02-01 00Z  5: 2011-12-31 18Z (Sat)
-\* 6: 2012-02-29 12Z (leap day)  7: 2012-03-01 00Z  8: 2011-03-01 00Z (non-leap year)  9: 2012-12-31 23Z
-TimePool == <<1325376000, 1325397600, 1325462400, 1328054400, 1325354400, 1330516800, 1330560000, 1298937600, 1356994800>>
-LeadPool == <<0, 12, 24, 36, 47, 48>>
-LocPool  == <<1, 2, 3, 4>>
-LatOf(s)  == 40 + 10 * s          \* 50, 60, 70, 80
-LonOf(s)  == IF s = 3 THEN 200 ELSE 10 * s     \* one station in the 0..360 convention
-ElevOf(s) == 100 * (s - 1)
-Code(t, l, s) == 100 * IndexIn(TimePool, t) + 10 * IndexIn(LeadPool, l) + IndexIn(LocPool, s)
-
-Positions(ts, ls, ss) == {<<i, j, k>> : i \in DOMAIN ts, j \in DOMAIN ls, k \in DOMAIN ss}
-IsFirst(seq, i) == \A j \in 1..(i - 1) : seq[j] # seq[i]
-\* a repeated dimension entry holds a different value (+500), so "first occurrence" is observable
-RepeatMark(ts, ls, ss, p) == IF IsFirst(ts, p[1]) /\ IsFirst(ls, p[2]) /\ IsFirst(ss, p[3]) THEN 0 ELSE 500
-
-\* g = [ts, ls, ss, hasObs, mo, mf] ; j = owner (forecast offset) ; mo/mf = missing positions
-MkInput(g, j) ==
-  [times |-> g.ts, leads |-> g.ls, locs |-> g.ss,
-   lat |-> [k \in DOMAIN g.ss |-> LatOf(g.ss[k])], lon |-> [k \in DOMAIN g.ss |-> LonOf(g.ss[k])],
-   elev |-> [k \in DOMAIN g.ss |-> ElevOf(g.ss[k])],
-   hasObs |-> g.hasObs,
-   obs |-> [p \in Positions(g.ts, g.ls, g.ss) |->
-              IF ~g.hasObs \/ p \in g.mo THEN NaN
-              ELSE R(1000 + Code(g.ts[p[1]], g.ls[p[2]], g.ss[p[3]]) + RepeatMark(g.ts, g.ls, g.ss, p))],
-   fcst |-> [p \in Positions(g.ts, g.ls, g.ss) |->
-              IF p \in g.mf THEN NaN
-              ELSE R(2000 + 10000 * j + g.bump + Code(g.ts[p[1]], g.ls[p[2]], g.ss[p[3]]) + RepeatMark(g.ts, g.ls, g.ss, p))]]
-
-\* climatology forecast: "lin" keeps coordinates visible after subtraction, "small" has zeros for -C
-MkClim(g) ==
-  [times |-> g.ts, leads |-> g.ls, locs |-> g.ss,
-   lat |-> [k \in DOMAIN g.ss |-> LatOf(g.ss[k])], lon |-> [k \in DOMAIN g.ss |-> LonOf(g.ss[k])],
-   elev |-> [k \in DOMAIN g.ss |-> ElevOf(g.ss[k])],
-   hasObs |-> g.hasObs,
-   obs |-> [p \in Positions(g.ts, g.ls, g.ss) |->
-              IF ~g.hasObs \/ p \in g.mo THEN NaN ELSE R(1000 + Code(g.ts[p[1]], g.ls[p[2]], g.ss[p[3]]))],
-   fcst |-> [p \in Positions(g.ts, g.ls, g.ss) |->
-              IF p \in g.mf THEN NaN
-              ELSE LET c == Code(g.ts[p[1]], g.ls[p[2]], g.ss[p[3]])
-                   IN  IF g.mode = "lin" THEN R(2 * c + 5) ELSE R((((c \div 100) + ((c \div 10) % 10) + (c % 10)) % 3) * 2)]]
-
-NoClimGen == [on |-> FALSE, ts |-> <<TimePool[1]>>, ls |-> <<LeadPool[1]>>, ss |-> <<LocPool[1]>>, hasObs |-> FALSE,
-              mo |-> {}, mf |-> {}, mode |-> "lin", type |-> "subtract"]
-
-DsOf(g) == [inputs |-> [j \in DOMAIN g.inp |-> MkInput(g.inp[j], j)],
-            hasClim |-> g.clim.on, clim |-> MkClim(g.clim), climType |-> g.clim.type]
-
----------------------------------------------------------------------------
-(* Universes *)
-T2 == <<TimePool[1], TimePool[2]>>
-L1 == <<LeadPool[1]>>
-S2 == <<LocPool[1], LocPool[2]>>
-P212 == Positions(T2, L1, S2)
-In212(hasObs, mo, mf) == [ts |-> T2, ls |-> L1, ss |-> S2, hasObs |-> hasObs, mo |-> mo, mf |-> mf, bump |-> 0]
-
-\* C01 thorough: 2 inputs on a 2x1x2 grid, every missing pattern of obs and fcst of both inputs
-UC01Full(u) == {[inp |-> <<In212(TRUE, a, b), In212(TRUE, c, d)>>, clim |-> NoClimGen, opt |-> NoOptions]
-               : a \in SUBSET P212, b \in SUBSET P212, c \in SUBSET P212, d \in SUBSET P212}
-\* C01 quick: only input 2 has missing cells
-UC01Quick(u) == {[inp |-> <<In212(TRUE, {}, {}), In212(TRUE, c, d)>>, clim |-> NoClimGen, opt |-> NoOptions]
-               : c \in SUBSET P212, d \in SUBSET P212}
-\* obs-less second input
-UC01NoObs(u) == {[inp |-> <<In212(TRUE, a, b), In212(FALSE, {}, d)>>, clim |-> NoClimGen, opt |-> NoOptions]
-               : a \in SUBSET P212, b \in SUBSET P212, d \in SUBSET P212}
-\* obs-less FIRST input (observations come from the second)
-UC01NoObs1(u) == {[inp |-> <<In212(FALSE, {}, b), In212(TRUE, c, d)>>, clim |-> NoClimGen, opt |-> NoOptions]
-               : b \in SUBSET P212, c \in SUBSET P212, d \in SUBSET P212}
-\* three inputs, 1x1x2 grid
-T1 == <<TimePool[1]>>
-P112 == Positions(T1, L1, S2)
-In112(hasObs, mo, mf) == [ts |-> T1, ls |-> L1, ss |-> S2, hasObs |-> hasObs, mo |-> mo, mf |-> mf, bump |-> 0]
-UC01Three(u) == {[inp |-> <<In112(TRUE, a, b), In112(TRUE, c, d), In112(h, {}, f)>>, clim |-> NoClimGen, opt |-> NoOptions]
-               : a \in SUBSET P112, b \in SUBSET P112, c \in SUBSET P112, d \in SUBSET P112, f \in SUBSET P112, h \in BOOLEAN}
-\* climatology on a 1x1x2 grid with its own missing cells, subtract and divide
-ClimGen(mf, mode, type) == [on |-> TRUE, ts |-> T1, ls |-> L1, ss |-> S2, hasObs |-> FALSE, mo |-> {}, mf |-> mf,
-                            mode |-> mode, type |-> type]
-UC01Clim(u) == {[inp |-> <<In112(TRUE, a, b), In112(TRUE, c, d)>>, clim |-> ClimGen(f, m[1], m[2]), opt |-> NoOptions]
-               : a \in SUBSET P112, b \in SUBSET P112, c \in SUBSET P112, d \in SUBSET P112, f \in SUBSET P112,
-                 m \in {<<"lin", "subtract">>, <<"small", "divide">>}}
-
----------------------------------------------------------------------------
-(* C02: coordinates in arbitrary, mutually different orders, extra entries, repeated entries *)
-FullIn(ts, ls, ss) == [ts |-> ts, ls |-> ls, ss |-> ss, hasObs |-> TRUE, mo |-> {}, mf |-> {}, bump |-> 0]
-\* all ordered sub-lists (length 1..3) of a 3-element pool
-OrderedSubs(P) == {<<P[a]>> : a \in 1..3} \cup {<<P[x[1]], P[x[2]]>> : x \in {y \in (1..3) \X (1..3) : y[1] # y[2]}}
-                  \cup {<<P[x[1]], P[x[2]], P[x[3]]>> : x \in {y \in (1..3) \X (1..3) \X (1..3) : y[1] # y[2] /\ y[1] # y[3] /\ y[2] # y[3]}}
-\* lists with one repeated entry (NetCDF only): the first occurrence must win
-RepeatSubs(P) == {<<P[1], P[2], P[1]>>, <<P[2], P[2], P[1]>>, <<P[2], P[1], P[1]>>, <<P[3], P[1], P[3], P[1]>>}
-TP3 == <<TimePool[1], TimePool[2], TimePool[3]>>
-LP3 == <<LeadPool[1], LeadPool[2], LeadPool[3]>>
-SP3 == <<LocPool[1], LocPool[2], LocPool[3]>>
-Ta == <<TimePool[1], TimePool[2]>>   Tb == <<TimePool[2], TimePool[1]>>
-La == <<LeadPool[1], LeadPool[2]>>   Lb == <<LeadPool[2], LeadPool[1]>>
-Sa == <<LocPool[1], LocPool[2]>>     Sb == <<LocPool[2], LocPool[1]>>
-UC02Dim(Subs(_)) ==
-     {[inp |-> <<FullIn(x, La, Sa), FullIn(y, Lb, Sb)>>, clim |-> NoClimGen, opt |-> NoOptions] : x \in Subs(TP3), y \in Subs(TP3)}
-\cup {[inp |-> <<FullIn(Ta, x, Sa), FullIn(Tb, y, Sb)>>, clim |-> NoClimGen, opt |-> NoOptions] : x \in Subs(LP3), y \in Subs(LP3)}
-\cup {[inp |-> <<FullIn(Ta, La, x), FullIn(Tb, Lb, y)>>, clim |-> NoClimGen, opt |-> NoOptions] : x \in Subs(SP3), y \in Subs(SP3)}
-UC02Order(u) == UC02Dim(OrderedSubs)
-RepOrPlain(P) == RepeatSubs(P) \cup {<<P[1], P[2]>>, <<P[3], P[2], P[1]>>}
-UC02Repeat(u) == {g \in UC02Dim(RepOrPlain) : TRUE}
-\* all three dimensions vary together over a reduced menu, three inputs
-Few(P) == {<<P[1], P[2]>>, <<P[2], P[1]>>, <<P[3], P[1], P[2]>>, <<P[2], P[3]>>}
-UC02All(u) == {[inp |-> <<FullIn(a, b, c), FullIn(d, e, f)>>, clim |-> NoClimGen, opt |-> NoOptions]
-                 : a \in Few(TP3), b \in Few(LP3), c \in Few(SP3), d \in Few(TP3), e \in Few(LP3), f \in Few(SP3)}
-UC02Three(u) == {[inp |-> <<FullIn(a, La, c), FullIn(d, Lb, Sb), FullIn(Tb, e, f)>>, clim |-> NoClimGen, opt |-> NoOptions]
-                 : a \in Few(TP3), c \in Few(SP3), d \in Few(TP3), e \in Few(LP3), f \in Few(SP3)}
-
----------------------------------------------------------------------------
-(* C03: the subsetting options.  Input 1 has 4 times (2 dates in January + 1 February, hours 0 and 6), 3 lead times, *)
-(* 4 locations; input 2 lists them in another order and lacks one location.                                          *)
-T4 == <<TimePool[1], TimePool[2], TimePool[3], TimePool[4]>>
-L3 == <<LeadPool[1], LeadPool[2], LeadPool[3]>>
-S4 == <<LocPool[1], LocPool[2], LocPool[3], LocPool[4]>>
-C03In1 == [ts |-> T4, ls |-> L3, ss |-> S4, hasObs |-> TRUE, mo |-> {<<1, 1, 1>>}, mf |-> {}, bump |-> 0]
-C03In2 == [ts |-> <<TimePool[4], TimePool[3], TimePool[2], TimePool[1]>>, ls |-> <<LeadPool[3], LeadPool[1], LeadPool[2]>>,
-           ss |-> <<LocPool[4], LocPool[2], LocPool[3], LocPool[1]>>, hasObs |-> TRUE, mo |-> {}, mf |-> {<<1, 1, 1>>}, bump |-> 0]
-\* option name -> menu of values: selects everything / a strict subset / range ends equal to coordinates / nothing
-OptMenu ==
-  [t |-> {{TimePool[1], TimePool[2], TimePool[3], TimePool[4]}, {TimePool[1], TimePool[3]}, {12345}},
-   d |-> {{20120101, 20120102, 20120201}, {20120101}, {20120102, 20120201}, {20110101}},
-   tod |-> {{0, 6}, {6}, {0}, {3}},
-   o |-> {{0, 12, 24}, {12}, {0, 24, 36}, {5}},
-   l |-> {{1, 2, 3, 4}, {2, 3}, {3}, {9}},
-   lx |-> {{}, {2}, {9}, {1, 2, 3, 4}},
-   latrange |-> {<<0, 90>>, <<60, 70>>, <<70, 70>>, <<61, 69>>},
-   lonrange |-> {<<-180, 360>>, <<20, 200>>, <<0, 40>>, <<300, 310>>},
-   elevrange |-> {<<-10, 1000>>, <<100, 200>>, <<300, 300>>, <<50, 60>>},
-   obsrange |-> {<<R(0), R(99999)>>, <<R(1122), R(1233)>>, <<R(1211), R(1211)>>, <<R(1), R(2)>>}]
-WithOpt(O1, name, v) ==
-  [[O1 EXCEPT !.given = @ \cup {name}] EXCEPT ![name] = v]
-OptSets(k) ==   \* all option records with at most k options given
-  LET Ext(O1) == {O1} \cup UNION {{WithOpt(O1, n, v) : v \in OptMenu[n]} : n \in OptionNames \ O1.given}
-      K0 == {NoOptions}
-      K1 == UNION {Ext(x) : x \in K0}
-      K2 == UNION {Ext(x) : x \in K1}
-      K3 == UNION {Ext(x) : x \in K2}
-  IN  IF k = 0 THEN K0 ELSE IF k = 1 THEN K1 ELSE IF k = 2 THEN K2 ELSE K3
-UC03(k) == {[inp |-> <<C03In1, C03In2>>, clim |-> NoClimGen, opt |-> o] : o \in OptSets(k)}
-\* the same with a climatology file that lacks one time and one location of its own
-C03Clim == [on |-> TRUE, ts |-> <<TimePool[3], TimePool[1], TimePool[2]>>, ls |-> L3, ss |-> <<LocPool[3], LocPool[1], LocPool[2]>>,
-            hasObs |-> FALSE, mo |-> {}, mf |-> {<<2, 2, 2>>}, mode |-> "lin", type |-> "subtract"]
-UC03Clim(k) == {[inp |-> <<C03In1, C03In2>>, clim |-> C03Clim, opt |-> o] : o \in OptSets(k)}
-
----------------------------------------------------------------------------
-(* C11: calendar buckets.  One or two inputs whose initialisation times straddle year, month, Monday-week and leap-day *)
-(* boundaries; lead times on both sides of the 24 h and 48 h marks.                                                 *)
-TimeSubsets3 == {<<TimePool[a], TimePool[b], TimePool[c]>> : a \in 1..9, b \in 1..9, c \in 1..9} 
-C11Times == {ts \in TimeSubsets3 : IndexIn(TimePool, ts[1]) < IndexIn(TimePool, ts[2]) /\ IndexIn(TimePool, ts[2]) < IndexIn(TimePool, ts[3])}
-L6 == <<LeadPool[2], LeadPool[5], LeadPool[3], LeadPool[6], LeadPool[1]>>     \* 12, 47, 24, 48, 0
-UC11(u) == {[inp |-> <<[ts |-> ts, ls |-> L6, ss |-> Sa, hasObs |-> TRUE, mo |-> {<<1, 2, 1>>}, mf |-> {<<2, 3, 2>>}, bump |-> 0]>>,
-             clim |-> NoClimGen, opt |-> NoOptions] : ts \in C11Times}
-UC11All(u) == {[inp |-> <<[ts |-> TimePool, ls |-> L6, ss |-> Sa, hasObs |-> TRUE, mo |-> {<<1, 2, 1>>}, mf |-> {<<2, 3, 2>>}, bump |-> 0]>>,
-             clim |-> NoClimGen, opt |-> NoOptions]}
-
----------------------------------------------------------------------------
-(* C14: climatology with its own coverage, order and missing cells; subtract and divide *)
-ClimShapes == {<<T2, L1, S2>>, <<Tb, L1, Sb>>, <<<<TimePool[2], TimePool[3], TimePool[1]>>, <<LeadPool[2], LeadPool[1]>>, <<LocPool[3], LocPool[2], LocPool[1]>>>>,
-               <<<<TimePool[1]>>, L1, S2>>, <<T2, L1, <<LocPool[2]>>>>}
-UC14(u) == {[inp |-> <<In212(TRUE, a, b)>>,
-             clim |-> [on |-> TRUE, ts |-> sh[1], ls |-> sh[2], ss |-> sh[3], hasObs |-> ho, mo |-> {}, mf |-> mf,
-                       mode |-> m[1], type |-> m[2]], opt |-> NoOptions]
-              : a \in SUBSET {<<1, 1, 1>>, <<2, 1, 2>>}, b \in SUBSET {<<1, 1, 2>>, <<2, 1, 2>>}, sh \in ClimShapes,
-                mf \in {{}, {<<1, 1, 1>>}, {<<1, 1, 1>>, <<2, 1, 1>>}}, ho \in BOOLEAN,
-                m \in {<<"lin", "subtract">>, <<"small", "divide">>, <<"small", "subtract">>, <<"lin", "divide">>}}
-UC14Two(u) == {[inp |-> <<In212(TRUE, a, b), In212(h, {}, d)>>,
-             clim |-> [on |-> TRUE, ts |-> sh[1], ls |-> sh[2], ss |-> sh[3], hasObs |-> FALSE, mo |-> {}, mf |-> mf,
-                       mode |-> m[1], type |-> m[2]], opt |-> NoOptions]
-              : a \in SUBSET {<<1, 1, 1>>}, b \in SUBSET {<<1, 1, 2>>, <<2, 1, 2>>}, d \in SUBSET {<<2, 1, 1>>, <<2, 1, 2>>}, h \in BOOLEAN,
-                sh \in ClimShapes, mf \in {{}, {<<1, 1, 1>>}}, m \in {<<"lin", "subtract">>, <<"small", "divide">>}}
-
-\* (the universes take a dummy parameter so that TLC does not pre-evaluate all of them as constants)
-Universe(u) ==
-  CASE Family = "C01Full"   -> UC01Full(0)
-    [] Family = "C01Quick"  -> UC01Quick(0)
-    [] Family = "C01NoObs"  -> UC01NoObs(0) \cup UC01NoObs1(0)
-    [] Family = "C01Three"  -> UC01Three(0)
-    [] Family = "C01Clim"   -> UC01Clim(0)
-    [] Family = "C02Order"  -> UC02Order(0)
-    [] Family = "C02Repeat" -> UC02Repeat(0)
-    [] Family = "C02All"    -> UC02All(0)
-    [] Family = "C02Three"  -> UC02Three(0)
-    [] Family = "C03K1"     -> UC03(1)
-    [] Family = "C03K2"     -> UC03(2)
-    [] Family = "C03K3"     -> UC03(3)
-    [] Family = "C03ClimK1" -> UC03Clim(1)
-    [] Family = "C03ClimK2" -> UC03Clim(2)
-    [] Family = "C11"       -> UC11(0)
-    [] Family = "C11All"    -> UC11All(0)
-    [] Family = "C14"       -> UC14(0)
-    [] Family = "C14Two"    -> UC14Two(0)
-
----------------------------------------------------------------------------
-(* request menu: every field combination, input, and every slice of the listed axes *)
-FamKind == CASE Family \in {"C11", "C11All"} -> "calendar"
-             [] Family \in {"C03K1", "C03K2", "C03K3", "C03ClimK1", "C03ClimK2"} -> "options"
-             [] OTHER -> "plain"
-FieldSeqs == IF FamKind = "plain" THEN {<<"obs">>, <<"fcst">>, <<"obs", "fcst">>} ELSE {<<"fcst">>, <<"obs", "fcst">>}
-MenuAxes == IF FamKind = "calendar" THEN (TimeAxes \cup LeadAxes \cup LocationAxes \cup {"no", "all"})
-            ELSE IF FamKind = "options" THEN {"all", "no", "time", "location"}
-            ELSE {"all", "no", "time", "leadtime", "location"}
-MaxIdx == IF FamKind = "calendar" THEN 9 ELSE 4
-Requests(n) ==
-  {[fields |-> f, inp |-> i, axis |-> a, idx |-> k] :
-     f \in FieldSeqs, i \in 1..n, a \in MenuAxes, k \in 1..MaxIdx}
-ReqOk(X, r) == IF r.axis = "all" THEN r.idx = 1 ELSE r.idx <= NumSlices(X, r.axis)
-
----------------------------------------------------------------------------
-(* JSON rendering *)
-J(x) == IF IsNaN(x) THEN "nan" ELSE IF IsInf(x) THEN (IF x[1] > 0 THEN "inf" ELSE "-inf")
-        ELSE IF x[2] = 1 THEN x[1] ELSE x
-Flat(I, F) ==
-  LET nt == Len(I.times)  nl == Len(I.leads)  ns == Len(I.locs)
-  IN  [n \in 1..(nt * nl * ns) |->
-         J(F[<<((n - 1) \div (ns * nl)) + 1, (((n - 1) \div ns) % nl) + 1, ((n - 1) % ns) + 1>>])]
-InputJson(I) == [times |-> I.times, leads |-> I.leads, locs |-> I.locs, lat |-> I.lat, lon |-> I.lon,
-                 elev |-> I.elev, hasObs |-> I.hasObs, obs |-> Flat(I, I.obs), fcst |-> Flat(I, I.fcst)]
-OptJson(O) == [given |-> SetToSeq(O.given), t |-> SortInts(O.t), d |-> SortInts(O.d), tod |-> SortInts(O.tod),
-               o |-> SortInts(O.o), l |-> SortInts(O.l), lx |-> SortInts(O.lx), latrange |-> O.latrange,
-               lonrange |-> O.lonrange, elevrange |-> O.elevrange,
-               obsrange |-> <<J(O.obsrange[1]), J(O.obsrange[2])>>]
-CaseList(X, r) ==
-  LET cs == Cases(X, r)
-      idxs == SortInts({X.pos[c] : c \in cs})
-      byIdx == [n \in {X.pos[c] : c \in cs} |-> CHOOSE c \in cs : X.pos[c] = n]
-  IN  [m \in DOMAIN idxs |->
-         <<idxs[m]>> \o [k \in DOMAIN r.fields |-> J(X.adj[r.inp, r.fields[k], byIdx[idxs[m]]])]]
-ReqJson(X, r) == [f |-> r.fields, i |-> r.inp, a |-> r.axis, k |-> r.idx, c |-> CaseList(X, r)]
 
 D == DsOf(gen)
 O == gen.opt
